@@ -31,7 +31,7 @@ def run(ctx):
         targeted += ac.tlc_behaviours_pair(ctx, 5)
     ctx.notes['deviations_detected_by'] = {d: ac.vacuity(ctx, CALLS, d) for d in ('OpCacheKeyedByName', 'NodeCacheSurvives', 'StateStash')}
     ctx.notes['deviations_detected_by'].update({d: ac.vacuity(ctx, ac.CY_CALLS, d, maxlen=4) for d in ('TemplateCacheByPath', 'ClearSkipsWhenNoIR')})
-    ac.judge_all(ctx, behs, 'compiled model after a history of API calls', cap=1800 if ctx.tier == "quick" else 45000, always=targeted)
+    ac.judge_all(ctx, behs, 'compiled model after a history of API calls', cap=1800 if ctx.tier == "quick" else 20000, always=targeted)
     ac.pinned_d09(ctx)
     for b in behs[len(behs) // 2: len(behs) // 2 + 2]:
         ctx.sample(dict(calls=b['calls'], expected_units=b['expM'], dev=b['dev']))
